@@ -25,7 +25,10 @@ package main
 //@   ensures[error-returned] (result1 == nil) <==> (wErrs == old(wErrs))
 //@   ensures[size-accounted] old(f.filesize) + result0 <= 9223372036854775807 ==> f.filesize == old(f.filesize) + result0
 //@   ensures[all-or-error] result1 == nil ==> result0 == len(p)
-//@   modifies f.filesize, wN, wOut, wCalls, wErrs, wLastErr, wForeign
+// r3d: a successful Write records the bytes it was given (backing array, offset, length) in the grow-only set r3dWritten
+// (hfile.spec); the Finish stub counts acknowledgements of messages whose body is not in it (r3dAckUnwritten).
+//@   modifies f.filesize, wN, wOut, wCalls, wErrs, wLastErr, wForeign, r3dWritten
+//@   onreturn r3dWritten := result1 == nil ? setadd(r3dWritten, r3dBodyKey(base(p), off(p), len(p))) : r3dWritten
 //@   nochan
 
 // Sync: gzip => finish the gzip member (Close) THEN fsync the file; plain => fsync. Errors are returned.
@@ -58,7 +61,9 @@ package main
 
 // Every message handed to the router is a real message (go-nsq never calls a handler with nil: `requires m != nil`
 // below is that call-protocol assumption); checked at the only send, assumed at the router's receive.
-//@ chaninv FileLogger.logChan(v) := v != nil
+// r3d: ... and it has ALREADY been taken out of go-nsq's auto-response when it is handed over (r3dAutoOff: grow-only set of
+// relay.spec filled by DisableAutoResponse), so the router - not the return of the handler - decides when it is finished.
+//@ chaninv FileLogger.logChan(v) := v != nil && setin(r3dAutoOff, v)
 
 // HandleMessage: the message is taken out of go-nsq's auto-response BEFORE it is handed to the router, exactly one
 // message is handed over, and nil is returned (with auto-response disabled nil does not finish the message).
@@ -159,7 +164,13 @@ package main
 //@   ensures[no-failed-write-before-finish] wErrs == old(wErrs)
 //@   ensures[two-writes-per-finish] wCalls - old(wCalls) == 2 * (hFinishes - old(hFinishes))
 //@   ensures[never-plain-rename] hRenames == old(hRenames)
+// r3d: per-message identity: every message acknowledged is one whose own body was written (and, by finish-after-sync, fsynced)
+//@   ensures[finished-were-written] r3dAckUnwritten == old(r3dAckUnwritten)
+// ... and one that HandleMessage took out of auto-response before handing it over (chaninv FileLogger.logChan): the router's Finish is the only response
+//@   ensures[finished-had-auto-response-off] r3dAckAutoOn == old(r3dAckAutoOn)
 //@   loop 0
+//@     invariant[finished-were-written] r3dAckUnwritten == old(r3dAckUnwritten) && r3dAckAutoOn == old(r3dAckAutoOn)
+//@     invariant[pending-were-written] forall i int :: {output[i]} 0 <= i && i < pos ==> output[i] != nil && setin(r3dAutoOff, output[i]) && setin(r3dWritten, r3dBodyKey(base(output[i].Body), off(output[i].Body), len(output[i].Body)))
 //@     invariant[finish-after-sync] hNoUnsafeAck(f.opts.GZIP)
 //@     invariant[no-failed-write] wErrs == old(wErrs)
 //@     invariant[two-writes-per-message] wCalls - old(wCalls) == 2 * (hFinishes - old(hFinishes)) + 2 * pos
@@ -169,6 +180,8 @@ package main
 //@     invariant[wired] hCfg(f) && hRouterInv(f) && f.consumer != nil && ticker != nil
 //@     invariant[never-plain-rename] hRenames == old(hRenames)
 //@   loop 1
+//@     invariant[finished-were-written] r3dAckUnwritten == old(r3dAckUnwritten) && r3dAckAutoOn == old(r3dAckAutoOn)
+//@     invariant[pending-were-written] forall i int :: {output[i]} 0 <= i && i < pos ==> output[i] != nil && setin(r3dAutoOff, output[i]) && setin(r3dWritten, r3dBodyKey(base(output[i].Body), off(output[i].Body), len(output[i].Body)))
 //@     invariant[durable-while-finishing] hDurable(f.opts.GZIP)
 //@     invariant[finish-after-sync] hNoUnsafeAck(f.opts.GZIP)
 //@     invariant[no-failed-write] wErrs == old(wErrs)
@@ -180,11 +193,14 @@ package main
 // ---- topic_discoverer.go ---------------------------------------------------------------------------------
 // NewFileLogger: constructor (go-nsq consumer set-up, connects): assumed to allocate a new logger and to leave every
 // existing logger and the discoverer alone. Body not verified (go-nsq internals).
+//@ ghost r3dCtorFails int
 //@ func NewFileLogger(logf lg.AppLogFunc, opts *Options, topic string, cfg *nsq.Config) (*FileLogger, error)
 //@   props C19
 //@   trusted
 //@   ensures[logger-or-error] result1 == nil ==> result0 != nil && fresh(result0)
-//@   modifies
+// r3d: failed constructions are counted (ghost r3dCtorFails), so "every allowed topic gets a logger unless its constructor failed" can be said
+//@   modifies r3dCtorFails
+//@   onreturn r3dCtorFails := r3dCtorFails + (result1 != nil ? 1 : 0)
 //@   nochan
 
 //@ func (t *TopicDiscoverer) isTopicAllowed(topic string) bool
@@ -202,8 +218,15 @@ package main
 //@   ensures[existing-loggers-kept] forall k string :: {t.topics[k]} old(has(t.topics, k)) ==> has(t.topics, k) && t.topics[k] == old(t.topics[k])
 //@   ensures[new-loggers-exist] forall k string :: {t.topics[k]} has(t.topics, k) && !old(has(t.topics, k)) ==> t.topics[k] != nil
 //@   ensures[no-ack-no-write] hFinishes == old(hFinishes) && wCalls == old(wCalls) && hRenames == old(hRenames) && hOpens == old(hOpens)
-//@   modifies mapof(t.topics)
+// r3d: new topics get a logger: without a topic pattern every listed topic has a logger afterwards unless a constructor failed;
+// one WaitGroup slot (= one router goroutine the discoverer will wait for) is taken per logger added.
+//@   ensures[every-listed-topic-gets-a-logger] t.opts.TopicPattern == "" && r3dCtorFails == old(r3dCtorFails) ==> (forall i int :: {topics[i]} 0 <= i && i < len(topics) ==> has(t.topics, topics[i]))
+//@   ensures[a-wait-slot-per-new-logger] r3dWgAdds - old(r3dWgAdds) == len(t.topics) - old(len(t.topics)) && r3dCtorFails >= old(r3dCtorFails)
+//@   modifies mapof(t.topics), r3dWgAdds, r3dCtorFails
+//@   nochan
 //@   loop 0
+//@     invariant[every-listed-topic-so-far] t.opts.TopicPattern == "" && r3dCtorFails == old(r3dCtorFails) ==> (forall i int :: {topics[i]} 0 <= i && i <= rangeindex ==> has(t.topics, topics[i]))
+//@     invariant[a-wait-slot-per-new-logger] r3dWgAdds - old(r3dWgAdds) == len(t.topics) - old(len(t.topics)) && r3dCtorFails >= old(r3dCtorFails)
 //@     invariant[new-loggers-exist] forall k string :: {t.topics[k]} has(t.topics, k) && !old(has(t.topics, k)) ==> t.topics[k] != nil
 //@     invariant[existing-loggers-kept] forall k string :: {t.topics[k]} old(has(t.topics, k)) ==> has(t.topics, k) && t.topics[k] == old(t.topics[k])
 //@     invariant[no-ack-no-write] hFinishes == old(hFinishes) && wCalls == old(wCalls) && hRenames == old(hRenames) && hOpens == old(hOpens)
